@@ -7,6 +7,7 @@ import ChaiVerif.Drv.Prelude
 import ChaiVerif.Drv.Env
 import ChaiVerif.Drv.Dispatch
 import ChaiVerif.Drv.Chai
+import ChaiVerif.Drv.Pos
 open ChaiVerif.Drv
 
 def main (args : List String) : IO UInt32 := do
@@ -21,6 +22,7 @@ def main (args : List String) : IO UInt32 := do
   | ["dispatch"] => lineLoop dispLine; return 0
   | ["chai"] => lineLoop (fun l => let r := (chaiLine l).replace "\n" " "; "model=" ++ r ++ "\tspec=" ++ r); return 0
   | ["chai-print"] => lineLoop (fun l => (chaiLine ("print " ++ l)).replace "\n" " "); return 0
+  | ["pos"] => lineLoop posLine; return 0
   | ["chai-tree"] => lineLoop (fun l => (chaiLine ("tree " ++ l)).replace "\n" " "); return 0
   | ["arith-abi"] => (abiLines.forM IO.println); return 0
   | _ => IO.eprintln "usage: chaimodel <mode>"; return 2
